@@ -81,7 +81,7 @@ impl<'a> Serializable<'a> for Raw<'a> {
     }
 }
 
-fn entry_bytes(tag: usize, len: usize) -> Vec<u8> {
+pub fn entry_bytes(tag: usize, len: usize) -> Vec<u8> {
     (0..len).map(|i| ((tag * 53 + i * 7) % 251 + 1) as u8).collect()
 }
 
@@ -279,6 +279,42 @@ pub fn run_frame(part: &mut Part) {
         }
     });
     part.stats.merge(merged.into_inner().unwrap());
+    // long sequences: a multi-frame entry straddling the K-th frame of one replay, for K at the
+    // widths a frame / entry counter could have (2^8, 2^16; quick: the entry's frames cover K;
+    // thorough: every offset of the boundary inside the entry and 2^17 as well)
+    {
+        let ks: Vec<usize> = if quick { vec![256, 65536] } else { vec![256, 4096, 65536, 131072] };
+        let mut stats = Stats::default();
+        for k in ks {
+            for j in 0..=6usize {
+                for small in [0usize, 3] {
+                    let mut entries: Vec<Vec<u8>> = Vec::with_capacity(k + 4);
+                    for i in 0..k.saturating_sub(j) {
+                        entries.push(entry_bytes(i % 200, small));
+                    }
+                    entries.push(entry_bytes(201, 4 * (BLOCK - 7) + 10));
+                    entries.push(entry_bytes(202, small));
+                    entries.push(entry_bytes(203, BLOCK));
+                    stats.evaluations += 1;
+                    stats.traces += 1;
+                    stats.transitions += entries.len() as u64;
+                    stats.count("frame_count_boundary_cases", 1);
+                    stats.nontrivial(&("frame-count", k, j, small));
+                    match guarded(|| round_trip(&entries)) {
+                        Ok(Ok(_)) => {}
+                        Ok(Err(e)) => stats.violation(Violation {
+                            property: "C07".into(),
+                            signature: "round-trip-mismatch".into(),
+                            what: format!("{} entries of {} bytes, then an entry of {} bytes (its frames straddle the {}th frame of the replay), then two more: {}", k - j, small, 4 * (BLOCK - 7) + 10, k, e),
+                            case: json!({"engine":"frame","frame_count_boundary":k,"small_entries_before":k - j,"small_entry_len":small}),
+                        }),
+                        Err(p) => stats.violation(Violation { property: "C07".into(), signature: "panic".into(), what: p, case: json!({"engine":"frame","frame_count_boundary":k,"small_entries_before":k - j,"small_entry_len":small}) }),
+                    }
+                }
+            }
+        }
+        part.stats.merge(stats);
+    }
     part.bounds = json!({
         "grid": {
             "start_offsets": starts.len(), "start_offset_values": if TINY { json!("0 and 7..=64 (1..6 cannot be reached: a frame is at least 7 bytes)") } else { json!(starts) },
